@@ -213,6 +213,37 @@ func genC14SilentPeer(p *Plan, r *RNG) {
 	p.QuietNS = 30 * sec
 }
 
+// genC14SilentNeighbour: the same black hole seen from next door. A UDP listener has one read
+// loop for all its clients; another client of it (a scripted one with a TCP allocation) asks
+// for connections to a peer that never answers, every few seconds like an application that
+// retries. The real client beside it did nothing but live: its allocation is refreshed, its
+// permission and channel too, and a quarter of an hour later data flows both ways.
+func genC14SilentNeighbour(p *Plan, r *RNG) {
+	baseSrvConfig(p, r)
+	p.Flavor = "e2e-silent-neighbour"
+	p.Cfg.Extra = map[string]int64{"tcp_peers": 1, "silent_peer": 1}
+	p.Cfg.LatCSns = int64(r.Range(1, 40))*ms + 3
+	p.Cfg.LatSPns = int64(r.Range(1, 20))*ms + 5
+	p.Cfg.AllocLifeS = r.PickInt([]int{0, 600})
+	p.Clients = []ClientSpec{{ID: "c1", Addr: "10.0.1.1:4000", User: "u1", Pass: "pw-one", Kind: "real"},
+		{ID: "c2", Addr: "10.0.1.2:4013", User: "u2", Pass: "pw-two"}}
+	p.Peers = []PeerSpec{{ID: "p1", Addr: "10.0.2.1:5000"}}
+	peer := p.Peers[0].Addr
+	add := func(o Op) { p.Ops = append(p.Ops, o) }
+	add(Op{Actor: "c1", Kind: "alloc", At: gap(50 * ms)})
+	add(Op{Actor: "", Kind: "wait", At: gap(sec)})
+	add(Op{Actor: "c1", Kind: "writeto", At: gap(500 * ms), A: OpArgs{Peer: peer, Len: 30}})
+	add(Op{Actor: "p1", Kind: "peer_send", At: gap(6 * sec), A: OpArgs{Target: "c1", Len: 40}})
+	add(Op{Actor: "c2", Kind: "allocate", At: gap(int64(r.Range(1, 200)) * sec), A: OpArgs{Lifetime: -1, Transport: "tcp"}})
+	for k := r.Range(5, 8); k > 0; k-- {
+		add(Op{Actor: "c2", Kind: "connect", At: gap(int64(r.Range(2, 12)) * sec), A: OpArgs{Peer: silentPeerAddr}})
+	}
+	add(Op{Actor: "c1", Kind: "writeto", At: gap(int64(r.Range(1000, 1500)) * sec), A: OpArgs{Peer: peer, Len: 41}})
+	add(Op{Actor: "p1", Kind: "peer_send", At: gap(int64(r.Range(5, 30)) * sec), A: OpArgs{Target: "c1", Len: 42}})
+	add(Op{Actor: "c1", Kind: "writeto", At: gap(int64(r.Range(5, 30)) * sec), A: OpArgs{Peer: peer, Len: 43}})
+	p.QuietNS = 30 * sec
+}
+
 func genC14(p *Plan, r *RNG) {
 	if r.Chance(1, 30) {
 		genC14ManyPeers(p, r)
@@ -241,6 +272,10 @@ func genC14(p *Plan, r *RNG) {
 	}
 	if r.Chance(1, 25) {
 		genC14SilentPeer(p, r)
+		return
+	}
+	if r.Chance(1, 30) {
+		genC14SilentNeighbour(p, r)
 		return
 	}
 	baseSrvConfig(p, r)
